@@ -3,8 +3,9 @@
 import json, sys
 from pathlib import Path
 ROOT = Path(__file__).resolve().parent.parent
-sys.path.insert(0, str(ROOT / "harness"))
-import props
+class props:
+    CLAIMED = {p.stem: json.loads(p.read_text()) for p in sorted((ROOT / "harness" / "claims").glob("C*.json"))}
+    NOT_APPLICABLE = json.loads((ROOT / "harness" / "not_applicable.json").read_text()) if (ROOT / "harness" / "not_applicable.json").exists() else {}
 
 all_ids = [json.loads(l)["id"] for l in (ROOT / "properties.jsonl").read_text().splitlines() if l.strip()]
 checks = []
